@@ -85,6 +85,7 @@ def expected(compilers, argv0, args):
         for f in r["flags"]:
             flagmap[f] = r
     cmd = {"defines": [], "include_paths": [], "include_files": []}
+    sys_paths = []        # -isystem directories: searched after every -I directory
     modes = []
     passes = []
     rule_passes = {}     # id(rule) -> list   (custom actions with dest passes)
@@ -107,7 +108,7 @@ def expected(compilers, argv0, args):
                 break
         if flag:
             if val is not None:
-                cmd[COMMON[flag]].append(val)
+                (sys_paths if flag == "-isystem" else cmd[COMMON[flag]]).append(val)
             i += 1
             continue
         key = a.split("=", 1)[0] if a.startswith("-") else a
@@ -154,6 +155,7 @@ def expected(compilers, argv0, args):
                 modes.extend(vals)
             elif dest in cmd:
                 cmd[dest].extend(vals)
+    cmd["include_paths"] = cmd["include_paths"] + sys_paths
     all_passes = {"default"} | set(passes)
     for lst in rule_passes.values():
         all_passes |= set(lst)
